@@ -53,6 +53,11 @@ type term struct {
 	wire string
 	v    rdf.Term // nil interface for the nil term
 	wf   bool
+	// eq: the term has an RDF term identity (non-nil; a blank node has an identifier). Every literal has
+	// one, well-formed or not: (datatype, lexical form, tag presence, tag kind, language, direction).
+	// Terms with eq are inside the equality/matcher oracles and may be arguments of every operation;
+	// wf additionally says the literal is a well-formed RDF literal (tag iff tagged datatype).
+	eq bool
 }
 
 const (
@@ -64,10 +69,10 @@ const (
 
 func hx(s string) string { return hex.EncodeToString([]byte(s)) }
 
-func iriTerm(s string) *term { return &term{wire: "I" + hx(s), v: rdf.IRI(s), wf: true} }
+func iriTerm(s string) *term { return &term{wire: "I" + hx(s), v: rdf.IRI(s), wf: true, eq: true} }
 
 func litTerm(dt, lex string, tag rdf.LiteralTag) *term {
-	t := &term{v: rdf.Literal{Datatype: rdf.IRI(dt), LexicalForm: lex, Tag: tag}}
+	t := &term{v: rdf.Literal{Datatype: rdf.IRI(dt), LexicalForm: lex, Tag: tag}, eq: true}
 	tagged := dt == langString || dt == dirLangStr
 	switch tg := tag.(type) {
 	case nil:
@@ -88,9 +93,62 @@ func litTerm(dt, lex string, tag rdf.LiteralTag) *term {
 
 var nilTerm = &term{wire: "-", v: nil, wf: false}
 
+// litKey: the byte string x/storage/inmemory hashes to key a literal node (dataset.go bindNode),
+// re-implemented here for the decidable predicate of the finding `literal-key-collision-illformed`:
+// two DIFFERENT literals with the same byte string share one node of the store.
+func litKey(l rdf.Literal) string {
+	k := string(l.Datatype) + "\n"
+	switch tag := l.Tag.(type) {
+	case rdf.LanguageLiteralTag:
+		k += fmt.Sprintf("lang=%q\n", tag.Language)
+	case rdf.DirectionalLanguageLiteralTag:
+		k += fmt.Sprintf("lang=%q; dir=%q\n", tag.Language, tag.BaseDirection)
+	}
+	return k + l.LexicalForm
+}
+
+// keyCollision: a and b are different literals that the store cannot tell apart.
+func keyCollision(a, b *term) bool {
+	la, ok1 := a.v.(rdf.Literal)
+	lb, ok2 := b.v.(rdf.Literal)
+	return ok1 && ok2 && a.wire != b.wire && litKey(la) == litKey(lb)
+}
+
+// sameTerm: RDF term equality written out on the Go values, independently of the wire tokens: same
+// kind and, for literals, same datatype, lexical form, tag presence, tag kind, language and direction.
+// Blank nodes: same identifier value (== on the interface: same factory and same counter/label).
+func sameTerm(a, b rdf.Term) bool {
+	switch x := a.(type) {
+	case rdf.IRI:
+		y, ok := b.(rdf.IRI)
+		return ok && x == y
+	case rdf.BlankNode:
+		y, ok := b.(rdf.BlankNode)
+		return ok && x.Identifier != nil && y.Identifier != nil && x.Identifier == y.Identifier
+	case rdf.Literal:
+		y, ok := b.(rdf.Literal)
+		if !ok || x.Datatype != y.Datatype || x.LexicalForm != y.LexicalForm || (x.Tag == nil) != (y.Tag == nil) {
+			return false
+		}
+		switch tx := x.Tag.(type) {
+		case rdf.LanguageLiteralTag:
+			ty, ok := y.Tag.(rdf.LanguageLiteralTag)
+			return ok && tx.Language == ty.Language
+		case rdf.DirectionalLanguageLiteralTag:
+			ty, ok := y.Tag.(rdf.DirectionalLanguageLiteralTag)
+			return ok && tx.Language == ty.Language && tx.BaseDirection == ty.BaseDirection
+		}
+		return true
+	}
+	return false
+}
+
 type universe struct {
 	iris, bnodes, lits []*term // well-formed
-	badLits, badBNodes []*term // outside the quantifier (correspondence only)
+	illLits            []*term // ill-formed literals differing from a member of lits (or from each other) ONLY in tag presence / tag kind
+	badLits, badBNodes []*term // badLits: ill-formed literals built to collide in the store's hashed concatenation (+ their twins); badBNodes: outside the quantifier
+	illPool            []*term // illLits + badLits
+	twins              map[string][]*term // literal wire -> the other universe literals with the same datatype and lexical form
 	graphs             []*term // graph names (nilTerm = default graph)
 	byWire             map[string]*term
 	bnWire             map[rdf.BlankNode]string
@@ -108,7 +166,7 @@ func newUniverse() *universe {
 	}
 	bn := func(w string, n rdf.BlankNode) *term {
 		u.bnWire[n] = w
-		return &term{wire: w, v: n, wf: true}
+		return &term{wire: w, v: n, wf: true, eq: true}
 	}
 	fA, fB := rdf.NewBlankNodeFactory(), rdf.NewBlankNodeFactory()
 	sA, sB := blanknodes.NewStringFactory(), blanknodes.NewStringFactory()
@@ -135,6 +193,22 @@ func newUniverse() *universe {
 		litTerm("http://e/A", "x", nil),
 		litTerm(langString, "x", rdf.LanguageLiteralTag{Language: "en-US"}),
 		litTerm(langString, "x", rdf.LanguageLiteralTag{Language: "en-us"}),
+		litTerm(dirLangStr, "x", rdf.DirectionalLanguageLiteralTag{Language: "en", BaseDirection: "rtl"}), // differs in base direction only
+	}
+	// Ill-formed literals (a tag on an untagged datatype, no tag on a tagged one, the other kind of tag):
+	// each differs from a well-formed member (or from another entry) ONLY in the presence or kind of the
+	// tag. None of them collides with any other universe literal in the store's hashed concatenation, so
+	// they are first-class members of the property's universe ("literals differing only in datatype, tag
+	// or lexical form"): as matcher arguments, as HasQuad/DeleteQuad arguments and as stored objects.
+	u.illLits = []*term{
+		litTerm(langString, "x", nil),                                    // "x"@en without its tag
+		litTerm(dirLangStr, "x", nil),                                    // the directional literal without its tag
+		litTerm(xsdToken, "x", rdf.LanguageLiteralTag{Language: "en"}),   // "x"^^xsd:token with a tag
+		litTerm(xsdString, "y", rdf.LanguageLiteralTag{Language: "fr"}),  // "y" with a tag
+		litTerm(xsdString, "", rdf.LanguageLiteralTag{Language: ""}),     // "" with an empty (but present) tag
+		litTerm(dirLangStr, "x", rdf.LanguageLiteralTag{Language: "en"}), // language-only tag where a directional one is expected
+		litTerm(xsdString, "x", rdf.DirectionalLanguageLiteralTag{Language: "en", BaseDirection: "ltr"}),
+		litTerm("http://e/a", "x", rdf.LanguageLiteralTag{Language: "en"}),
 	}
 	u.badLits = []*term{
 		litTerm(langString, "lang=\"en\"\nx", nil),                      // collides with "x"@en in the hashed concatenation
@@ -151,9 +225,20 @@ func newUniverse() *universe {
 	u.preds = u.iris
 	u.objects = append(append(append([]*term{}, u.iris...), u.bnodes...), u.lits...)
 	u.allWF = append(append([]*term{}, u.objects...), u.graphs[1])
-	for _, l := range [][]*term{u.iris, u.bnodes, u.lits, u.badLits, u.badBNodes, u.graphs, {nilTerm}} {
+	u.illPool = append(append([]*term{}, u.illLits...), u.badLits...)
+	for _, l := range [][]*term{u.iris, u.bnodes, u.lits, u.illLits, u.badLits, u.badBNodes, u.graphs, {nilTerm}} {
 		for _, t := range l {
 			u.byWire[t.wire] = t
+		}
+	}
+	u.twins = map[string][]*term{}
+	allLits := append(append([]*term{}, u.lits...), u.illPool...)
+	for _, a := range allLits {
+		for _, b := range allLits {
+			la, lb := a.v.(rdf.Literal), b.v.(rdf.Literal)
+			if a.wire != b.wire && la.Datatype == lb.Datatype && la.LexicalForm == lb.LexicalForm {
+				u.twins[a.wire] = append(u.twins[a.wire], b)
+			}
 		}
 	}
 	return u
@@ -322,8 +407,28 @@ func (m *tm) wellFormed() bool {
 	return true
 }
 
-// ref is the reference semantics on well-formed terms: RDF term equality is equality of the
-// canonical token. t == nilTerm stands for a nil term (default graph name).
+// hasRef: every term mentioned has an RDF term identity (non-nil, blank nodes with identifier; literals
+// of any shape, ill-formed ones included): the reference semantics below is defined.
+func (m *tm) hasRef() bool {
+	if m.t != nil && !m.t.eq {
+		return false
+	}
+	for _, t := range m.ts {
+		if !t.eq {
+			return false
+		}
+	}
+	for _, k := range m.kids {
+		if !k.hasRef() {
+			return false
+		}
+	}
+	return true
+}
+
+// ref is the reference semantics on terms with an identity: RDF term equality is equality of the
+// canonical token (which spells out datatype, lexical form, tag presence, tag kind, language and
+// direction). t == nilTerm stands for a nil term (default graph name).
 func (m *tm) ref(t *term) bool {
 	switch m.op {
 	case "eq":
@@ -408,6 +513,11 @@ func (q rquad) wire() string    { return q.s.wire + "," + q.p.wire + "," + q.o.w
 func (q rquad) triWire() string { return q.s.wire + "," + q.p.wire + "," + q.o.wire }
 func (q rquad) wf() bool {
 	return q.s.wf && q.p.wf && q.o.wf && (q.g == nilTerm || q.g.wf)
+}
+
+// hasRef: all four positions have an RDF term identity (the object may be an ill-formed literal).
+func (q rquad) hasRef() bool {
+	return q.s.eq && q.p.eq && q.o.eq && (q.g == nilTerm || q.g.eq)
 }
 
 func (x sm) ref(q rquad) bool {
@@ -559,22 +669,48 @@ func (o op) wire() string {
 	}
 }
 
-// inProperty: the operation and all its arguments are inside C19's quantifier.
+// inProperty: the operation and all its arguments are inside C19's quantifier: non-nil terms with an
+// RDF term identity. Literals need not be well-formed ("literals differing only in datatype, tag or
+// lexical form"); what ill-formed literals can do is collide in the store's key, which the oracle
+// treats per history (see runRef: literal-key-collision-illformed).
 func (o op) inProperty() bool {
 	switch o.kind {
 	case "A", "D", "H", "a", "d", "h":
-		return o.q.wf()
+		return o.q.hasRef()
 	case "G":
-		return o.q.g == nilTerm || o.q.g.wf
+		return o.q.g == nilTerm || o.q.g.eq
 	case "Q", "q":
 		for _, m := range o.sms {
-			if !m.m.wellFormed() {
+			if !m.m.hasRef() {
 				return false
 			}
 		}
-		return o.kind == "Q" || o.q.g == nilTerm || o.q.g.wf
+		return o.kind == "Q" || o.q.g == nilTerm || o.q.g.eq
 	}
 	return false // s: NewSubjectIterator is not an operation of the property
+}
+
+// illShape classifies how an operation uses ill-formed literals (histograms; the three uses are
+// counted separately): "" none, "stored" (AddQuad/AddTriple object), "arg" (Has/Delete object),
+// "matcher" (a matcher mentions one).
+func (o op) illShape() string {
+	switch o.kind {
+	case "A", "a":
+		if o.q.hasRef() && !o.q.wf() {
+			return "stored"
+		}
+	case "D", "H", "d", "h":
+		if o.q.hasRef() && !o.q.wf() {
+			return "arg"
+		}
+	case "Q", "q":
+		for _, m := range o.sms {
+			if m.m.hasRef() && !m.m.wellFormed() {
+				return "matcher"
+			}
+		}
+	}
+	return ""
 }
 
 func (u *universe) parseOp(w string) (op, error) {
@@ -831,12 +967,20 @@ func (u *universe) runGo2(ops []op, useCached func(i int) bool) (outs, alts []st
 
 // runRef executes the history on a plain map-based set. ok[i] reports whether op i has a reference
 // answer (the history up to and including i is inside the property's quantifier).
-func runRef(ops []op) (outs []string, ok []bool, residue []bool) {
+//
+// coll[i]: at or before op i the history has handed the store two DIFFERENT literals whose hashed
+// concatenations are equal (predicate of the finding literal-key-collision-illformed; at least one of
+// the two is ill-formed: Lean C19.literal_key_injective). From that op on the store may deviate from
+// the set; a deviation there is in the class of the finding, not a fresh violation.
+func runRef(ops []op) (outs []string, ok []bool, residue []bool, coll []bool) {
 	set := map[string]rquad{}
 	outs = make([]string, len(ops))
 	ok = make([]bool, len(ops))
 	residue = make([]bool, len(ops))
+	coll = make([]bool, len(ops))
 	inside := true
+	boundKeys := map[string]string{} // hashed byte string -> wire of the first literal handed to the store with it
+	collided := false
 	for i, o := range ops {
 		if o.kind != "s" && !o.inProperty() {
 			inside = false
@@ -844,6 +988,18 @@ func runRef(ops []op) (outs []string, ok []bool, residue []bool) {
 		if !inside {
 			continue
 		}
+		switch o.kind {
+		case "A", "D", "H", "a", "d", "h":
+			if l, isLit := o.q.o.v.(rdf.Literal); isLit {
+				k := litKey(l)
+				if w, seen := boundKeys[k]; seen && w != o.q.o.wire {
+					collided = true
+				} else if !seen {
+					boundKeys[k] = o.q.o.wire
+				}
+			}
+		}
+		coll[i] = collided
 		ok[i] = true
 		switch o.kind {
 		case "A", "a":
@@ -890,7 +1046,7 @@ func runRef(ops []op) (outs []string, ok []bool, residue []bool) {
 			var l []string
 			wfm := true
 			for _, m := range o.tms {
-				wfm = wfm && m.wellFormed()
+				wfm = wfm && m.hasRef()
 			}
 			if !wfm {
 				ok[i] = false
@@ -922,6 +1078,35 @@ type gen struct {
 	r   *vh.Rng
 	u   *universe
 	rep *vh.Report
+	// mode of the history being generated:
+	//   "wf"        every term well-formed
+	//   "illarg"    stored quads well-formed; ill-formed literals (differing from members only in tag
+	//               presence/kind) as matcher arguments and as HasQuad/DeleteQuad/HasTriple/DeleteTriple objects
+	//   "illstored" ill-formed literals also as objects of AddQuad/AddTriple
+	//   "malformed" additionally nil terms, blank nodes without identifier (outside the quantifier)
+	mode  string
+	added []rquad // quads added so far in the history being generated
+}
+
+func (g *gen) ill() bool { return g.mode == "illarg" || g.mode == "illstored" }
+
+// twinOf: a universe literal with the same datatype and lexical form as t but another tag (presence,
+// kind or value), if t is a literal that has one.
+func (g *gen) twinOf(t *term) *term {
+	if tw := g.u.twins[t.wire]; len(tw) > 0 {
+		return vh.Pick(g.r, tw)
+	}
+	return nil
+}
+
+// twinOfAdded: a twin of the object of a quad added earlier in this history.
+func (g *gen) twinOfAdded() *term {
+	for k := 0; k < 4 && len(g.added) > 0; k++ {
+		if t := g.twinOf(vh.Pick(g.r, g.added).o); t != nil && (g.ill() || t.wf) {
+			return t
+		}
+	}
+	return nil
 }
 
 func (g *gen) anyTerm(pool []*term, malformed bool) *term {
@@ -949,12 +1134,18 @@ func (g *gen) quad(malformed bool) rquad {
 	if g.r.Chance(15) {
 		q.p = vh.Pick(g.r, u.preds)
 	}
+	if g.mode == "illstored" && g.r.Chance(35) {
+		q.o = vh.Pick(g.r, u.illPool)
+		if g.r.Chance(60) {
+			q.o = vh.Pick(g.r, u.illLits[:4]) // hot: twins of the hot well-formed literals
+		}
+	}
 	if malformed {
 		if g.r.Chance(5) {
 			q.p = nilTerm
 		}
 		if g.r.Chance(35) {
-			q.o = vh.Pick(g.r, u.badLits)
+			q.o = vh.Pick(g.r, u.illPool)
 		}
 		if g.r.Chance(5) {
 			q.g = u.badBNodes[0] // graph named by a blank node without identifier
@@ -967,7 +1158,9 @@ func (g *gen) termMatcher(depth int, malformed bool) *tm {
 	u := g.u
 	pool := u.allWF
 	if malformed && g.r.Chance(40) {
-		pool = append(append(append([]*term{}, u.badLits...), u.badBNodes...), u.lits...)
+		pool = append(append(append([]*term{}, u.illPool...), u.badBNodes...), u.lits...)
+	} else if g.ill() && g.r.Chance(50) {
+		pool = append(append([]*term{}, u.illPool...), u.lits...)
 	}
 	n := 10
 	if depth > 0 {
@@ -1008,13 +1201,22 @@ func (g *gen) termMatcher(depth int, malformed bool) *tm {
 }
 
 // focused matcher: picks terms that actually occur, so that results are non-empty often
-func (g *gen) focused(pool []*term) *tm {
+func (g *gen) focused(pool []*term, object bool) *tm {
+	pick := func() *term {
+		// object position: a literal that differs from a stored object only in its tag
+		if object && g.r.Chance(40) {
+			if t := g.twinOfAdded(); t != nil {
+				return t
+			}
+		}
+		return vh.Pick(g.r, pool)
+	}
 	if g.r.Bool() {
-		return &tm{op: "eq", t: vh.Pick(g.r, pool)}
+		return &tm{op: "eq", t: pick()}
 	}
 	m := &tm{op: "of"}
 	for i, k := 0, 1+g.r.Intn(3); i < k; i++ {
-		m.ts = append(m.ts, vh.Pick(g.r, pool))
+		m.ts = append(m.ts, pick())
 	}
 	return m
 }
@@ -1038,13 +1240,17 @@ func (g *gen) stmtMatchers(quad, malformed bool) []sm {
 		if g.r.Chance(50) {
 			switch pos {
 			case "qg":
-				m = g.focused(u.graphs[1:])
+				m = g.focused(u.graphs[1:], false)
 			case "qs", "ts":
-				m = g.focused([]*term{u.iris[0], u.iris[1], u.bnodes[2], u.bnodes[4]})
+				m = g.focused([]*term{u.iris[0], u.iris[1], u.bnodes[2], u.bnodes[4]}, false)
 			case "qp", "tp":
-				m = g.focused(u.preds[2:])
+				m = g.focused(u.preds[2:], false)
 			default:
-				m = g.focused(u.objects)
+				pool := u.objects
+				if g.ill() {
+					pool = append(append([]*term{}, u.objects...), u.illPool...)
+				}
+				m = g.focused(pool, true)
 			}
 		} else {
 			m = g.termMatcher(2, malformed)
@@ -1054,11 +1260,14 @@ func (g *gen) stmtMatchers(quad, malformed bool) []sm {
 	return ms
 }
 
-func (g *gen) history(maxOps int, malformed bool) []op {
+func (g *gen) history(maxOps int, mode string) []op {
+	g.mode = mode
+	malformed := mode == "malformed"
 	n := 1 + g.r.Intn(maxOps)
 	ops := make([]op, 0, n)
 	var added []rquad
 	for i := 0; i < n; i++ {
+		g.added = added
 		q := g.quad(malformed)
 		if len(added) > 0 && g.r.Chance(45) {
 			q = vh.Pick(g.r, added) // re-add / delete / query something present
@@ -1075,7 +1284,16 @@ func (g *gen) history(maxOps int, malformed bool) []op {
 				}
 			}
 		}
-		switch x := g.r.Intn(100); {
+		x := g.r.Intn(100)
+		if isArg := (x >= 26 && x < 52) || (x >= 77 && x < 89); isArg && g.ill() && g.r.Chance(45) {
+			// HasQuad/DeleteQuad/HasTriple/DeleteTriple with a literal that differs from a stored one only in its tag
+			if t := g.twinOf(q.o); t != nil {
+				q.o = t
+			} else if g.r.Chance(30) {
+				q.o = vh.Pick(g.r, g.u.illPool)
+			}
+		}
+		switch {
 		case x < 26:
 			ops = append(ops, op{kind: "A", q: q})
 			added = append(added, q)
@@ -1156,17 +1374,58 @@ func residueOnly(ops []op, i int, goOut, refOut string) bool {
 	return true
 }
 
+const collisionPredicate = "literal-key-collision-illformed"
+
+// addCase stores a case. `known` cases are capped at 5 per finding (the rest only counted) and failures
+// at 40 per kind of probe, so that neither residue cases nor one noisy family can crowd other failures
+// out of the report. (Before round 3e vh.Report.Add kept 200 cases in all, known ones included: 200
+// residue cases came first and seeded defect C19r3-1 went unreported although ds.teq disagreed; vh now
+// keeps separate budgets as well.)
+var knownStored = map[string]int{}
+
+func addCase(rep *vh.Report, c vh.Case) {
+	cat, limit := "known:"+c.Key, 5
+	if c.Kind != "known" {
+		// failures: at most 40 stored per kind of probe, so that one noisy family leaves room for the others
+		cat, limit = "failure:"+c.Kind+":"+strings.SplitN(c.Op, " ", 2)[0], 40
+	}
+	rep.Count(cat)
+	if knownStored[cat] >= limit {
+		return
+	}
+	knownStored[cat]++
+	rep.Add(c)
+}
+
 type verdict struct {
 	violation string // first property violation (Go vs reference set), "" if none
 	at        int
-	residue   bool // a subject iterator reported residue subjects
+	residue   bool   // a subject iterator reported residue subjects
+	collision string // first deviation inside the class literal-key-collision-illformed, "" if none
+	collSkip  int    // ops not judged because the class applies and the finding is not (yet) listed
 }
 
+// collisionKnown: the finding literal-key-collision-illformed is listed in known-findings.json. With
+// the entry, histories that make two different literals share a key are judged in full and their
+// deviations reported as `known`; without it the ops from the collision on are left to the
+// correspondence check (T3) alone, exactly as before the ill-formed literals entered the quantifier.
+var collisionKnown bool
+
 func (u *universe) oracle(ops []op, goOuts []string) verdict {
-	ref, ok, residue := runRef(ops)
+	ref, ok, residue, coll := runRef(ops)
 	v := verdict{at: -1}
 	for i := range ops {
+		if ok[i] && coll[i] && !collisionKnown {
+			v.collSkip++
+			continue
+		}
 		if !ok[i] || goOuts[i] == ref[i] {
+			continue
+		}
+		if coll[i] {
+			if v.collision == "" {
+				v.collision = fmt.Sprintf("op %d (%s): implementation answered %s, a plain set of quads answers %s", i, ops[i].wire(), goOuts[i], ref[i])
+			}
 			continue
 		}
 		if residue[i] {
@@ -1232,7 +1491,7 @@ func sameUpToResidue(goR, model, alt string) bool {
 func main() {
 	flag.Parse()
 	seed := vh.SeedFromEnv()
-	rep := vh.NewReport("C19", *tier, seed, "random histories (<= 20 ops: AddQuad/DeleteQuad/HasQuad/NewQuadIterator, GetGraph and AddTriple/DeleteTriple/HasTriple/NewTripleIterator/NewSubjectIterator through fresh or earlier graph handles) over 5 IRIs, 8 blank nodes of 5 factories (default, 2 counter, 2 string), 9 literals differing only in datatype/tag/lexical form, 3 graph names + default; matcher lists of 0-3 subject/predicate/object/graph/triple matchers over Equals, EqualsOneOf, Is*, IsLiteralDatatype, and/or/not; a separate stream with nil terms, blank nodes without identifier and ill-formed literals whose hashed concatenations collide (correspondence only); non-trivial = the history deletes a present quad or iterates with at least one matcher")
+	rep := vh.NewReport("C19", *tier, seed, "random histories (<= 20 ops: AddQuad/DeleteQuad/HasQuad/NewQuadIterator, GetGraph and AddTriple/DeleteTriple/HasTriple/NewTripleIterator/NewSubjectIterator through fresh or earlier graph handles) over 5 IRIs, 8 blank nodes of 5 factories (default, 2 counter, 2 string), 15 well-formed literals differing only in datatype/tag/lexical form/letter case/base direction, 3 graph names + default; matcher lists of 0-3 subject/predicate/object/graph/triple matchers over Equals, EqualsOneOf, Is*, IsLiteralDatatype, and/or/not. Four streams: wf (50%); illarg (20%): 8 ill-formed literals that differ from a member ONLY in the presence or kind of the tag, used as matcher arguments and as HasQuad/DeleteQuad/HasTriple/DeleteTriple objects, never stored; illstored (10%): the same also stored; malformed (20%): additionally nil terms and blank nodes without identifier (outside the quantifier: correspondence only from the first such op on) and ill-formed literals built to collide in the store's hashed concatenation. The reference set judges every op whose arguments have an RDF term identity (literals of any shape); from the op at which a history hands the store two different literals with equal hashed byte strings (finding literal-key-collision-illformed) deviations are reported as known if the finding is listed, else left to the correspondence check. Plus all ordered literal pairs (store a / match, has, delete b) and all ordered term pairs (TermEquals symmetric and structural, Equals/EqualsOneOf agree). non-trivial = the history deletes a present quad or iterates with at least one matcher")
 	u := newUniverse()
 	g := &gen{r: vh.NewRng(seed), u: u, rep: rep}
 	fs, err := vh.LoadFindings(*findings)
@@ -1241,6 +1500,10 @@ func main() {
 		exit(2)
 	}
 	known := vh.KnownKeys(fs, "C19")
+	_, collisionKnown = known[collisionPredicate]
+	if !collisionKnown {
+		rep.Count("oracle:finding-" + collisionPredicate + "-not-listed(colliding-histories-judged-by-T3-only)")
+	}
 	// The driver binary is shared with the checks of other properties and is relinked by their
 	// builds; run from a private copy so that a concurrent relink cannot pull it away mid-run.
 	if !*nomodel {
@@ -1294,7 +1557,7 @@ func main() {
 					}
 				}
 			}
-			rep.Add(c)
+			addCase(rep, c)
 		}
 		items = items[:0]
 	}
@@ -1334,6 +1597,9 @@ func main() {
 				}
 			}
 			rep.Count("op:" + o.kind)
+			if sh := o.illShape(); sh != "" {
+				rep.Count("ill-formed-literal:" + sh + ":" + o.kind)
+			}
 			if outs[i] == "panic" {
 				rep.Count("out:panic")
 			}
@@ -1344,19 +1610,31 @@ func main() {
 		if v.residue {
 			rep.Count("residue:subject-iterator-reports-subject-without-statements")
 			if f, ok := known["subject-iterator-residue"]; ok {
-				rep.Add(vh.Case{Kind: "known", Key: f.Key, Op: line, Detail: f.What})
+				addCase(rep, vh.Case{Kind: "known", Key: f.Key, Op: line, Detail: f.What})
+			}
+		}
+		if v.collSkip > 0 {
+			rep.Count("oracle:history-with-literal-key-collision:ops-left-to-T3")
+		}
+		if v.collision != "" {
+			rep.Count("oracle:deviation-in-class-" + collisionPredicate)
+			if f, ok := known[collisionPredicate]; ok {
+				addCase(rep, vh.Case{Kind: "known", Key: f.Key, Op: line, Detail: v.collision})
 			}
 		}
 		if v.violation != "" {
-			small := shrink(ops, func(c []op) bool {
-				return u.oracle(c, u.runGo(c, func(int) bool { return false })).violation != ""
-			})
+			small := ops
+			if rep.Failures() < 40 { // shrinking is for the reader; the first few suffice
+				small = shrink(ops, func(c []op) bool {
+					return u.oracle(c, u.runGo(c, func(int) bool { return false })).violation != ""
+				})
+			}
 			so := u.runGo(small, func(int) bool { return false })
 			sv := u.oracle(small, so)
 			if sv.violation == "" { // depends on handle caching: keep the unshrunk history
 				small, sv = ops, v
 			}
-			rep.Add(vh.Case{Kind: "violation", Op: lineOf(small), Go: strings.Join(u.runGo(small, func(int) bool { return false }), "|"), Detail: sv.violation})
+			addCase(rep, vh.Case{Kind: "violation", Op: lineOf(small), Go: strings.Join(u.runGo(small, func(int) bool { return false }), "|"), Detail: sv.violation})
 		}
 		if !modelOff {
 			alt := ""
@@ -1428,13 +1706,20 @@ func main() {
 			eval("corpus", ops)
 		}
 		for i := 0; i < n; i++ {
-			if i%5 == 4 {
-				eval("malformed", g.history(20, true))
-			} else {
-				eval("wf", g.history(20, false))
+			switch i % 10 {
+			case 4, 9:
+				eval("malformed", g.history(20, "malformed"))
+			case 2, 7:
+				eval("illarg", g.history(20, "illarg"))
+			case 5:
+				eval("illstored", g.history(20, "illstored"))
+			default:
+				eval("wf", g.history(20, "wf"))
 			}
 		}
-		g.matcherProbes(&items)
+		g.mode = "malformed"
+		g.matcherProbes(&items, known)
+		g.literalPairs(eval)
 		if *tier != "thorough" {
 			g.exhaustive(eval, 2, "compared with the reference set and with the model")
 		} else {
@@ -1496,22 +1781,62 @@ func fastPath(o op) string {
 	return "general-many-subjects"
 }
 
-// matcherProbes: every term matcher shape against every term of the universe (ds.match), every pair
-// of terms for TermEquals (ds.teq) and for node-key equality (ds.key, observed through HasQuad).
-func (g *gen) matcherProbes(items *[]item) {
+// matcherProbes: every pair of universe terms for TermEquals (ds.teq) and for node-key equality
+// (ds.key, observed through HasQuad), every Equals / EqualsOneOf matcher built from one universe term
+// against every universe term, and random matcher shapes against random terms (ds.match).
+//
+// Direct oracles on the implementation (besides the correspondence with the model):
+//   - TermEquals is symmetric on every pair of non-nil terms;
+//   - on terms with an identity (all but nil and the blank node without identifier), ill-formed
+//     literals included, TermEquals is structural equality (sameTerm: kind, datatype, lexical form, tag
+//     presence, tag kind, language, direction) = equality of the canonical token;
+//   - Equals{a} and EqualsOneOf(a), EqualsOneOf(a, other) match b iff a equals b;
+//   - two terms with an identity are interned as one node iff they are equal — except pairs of
+//     different literals whose hashed byte strings coincide (class literal-key-collision-illformed).
+func (g *gen) matcherProbes(items *[]item, known map[string]vh.Finding) {
 	u := g.u
-	all := append(append(append(append([]*term{}, u.allWF...), u.badLits...), u.badBNodes...), nilTerm)
+	all := append(append(append(append(append([]*term{}, u.allWF...), u.illLits...), u.badLits...), u.badBNodes...), nilTerm)
+	pairs, illPairs := 0, 0
 	for _, a := range all {
 		if a == nilTerm {
 			continue
 		}
 		for _, b := range all {
 			g.rep.Count("op:teq")
-			g.rep.Eval("ds.teq "+a.wire+" "+b.wire, false)
-			*items = append(*items, item{line: "ds.teq " + a.wire + " " + b.wire, goR: tf(a.v.TermEquals(b.v)), kind: "teq"})
-			// oracle: on well-formed terms TermEquals is equality of the canonical form
-			if a.wf && (b.wf || b == nilTerm) && a.v.TermEquals(b.v) != (a.wire == b.wire) {
-				g.rep.Add(vh.Case{Kind: "violation", Op: "ds.teq " + a.wire + " " + b.wire, Detail: "TermEquals disagrees with RDF term equality"})
+			pairs++
+			if a.eq && !a.wf || b.eq && !b.wf {
+				g.rep.Count("teq:pair-with-ill-formed-literal")
+				illPairs++
+			}
+			line := "ds.teq " + a.wire + " " + b.wire
+			g.rep.Eval(line, false)
+			ab := a.v.TermEquals(b.v)
+			*items = append(*items, item{line: line, goR: tf(ab), kind: "teq"})
+			if b != nilTerm {
+				if ba := b.v.TermEquals(a.v); ab != ba {
+					addCase(g.rep, vh.Case{Kind: "violation", Op: line, Go: tf(ab), Detail: fmt.Sprintf("TermEquals is not symmetric: a.TermEquals(b)=%v, b.TermEquals(a)=%v", ab, ba)})
+				}
+			}
+			// on terms with an identity TermEquals is structural equality = equality of the canonical form
+			if a.eq && (b.eq || b == nilTerm) {
+				want := b != nilTerm && sameTerm(a.v, b.v)
+				if want != (a.wire == b.wire) {
+					addCase(g.rep, vh.Case{Kind: "violation", Op: line, Detail: "harness: structural equality and canonical tokens disagree"})
+				}
+				if ab != want {
+					addCase(g.rep, vh.Case{Kind: "violation", Op: line, Go: tf(ab), Detail: "TermEquals disagrees with RDF term equality (same kind, datatype, lexical form, tag presence, tag kind, language, direction): expected " + tf(want)})
+				}
+				// the matchers built from a agree with term equality on b
+				other := u.iris[3]
+				for _, m := range []*tm{{op: "eq", t: a}, {op: "of", ts: []*term{a}}, {op: "of", ts: []*term{other, a}}, {op: "of", ts: []*term{a, u.lits[4], a}}} {
+					mline := "ds.match " + strings.Join(m.rpn(), ";") + " " + b.wire
+					got := m.goM().MatchTerm(b.v)
+					g.rep.Count("op:match-pair")
+					*items = append(*items, item{line: mline, goR: tf(got), kind: "match"})
+					if got != m.ref(b) {
+						addCase(g.rep, vh.Case{Kind: "violation", Op: mline, Go: tf(got), Detail: "term matcher disagrees with term equality (reference evaluation: " + tf(m.ref(b)) + ")"})
+					}
+				}
 			}
 			if b == nilTerm {
 				continue
@@ -1523,31 +1848,85 @@ func (g *gen) matcherProbes(items *[]item) {
 				d.AddQuad(ctx, rdf.Quad{Triple: rdf.Triple{Subject: s, Predicate: p, Object: a.v.(rdf.ObjectValue)}})
 				same, _ := d.HasQuad(ctx, rdf.Quad{Triple: rdf.Triple{Subject: s, Predicate: p, Object: b.v.(rdf.ObjectValue)}})
 				g.rep.Count("op:key")
-				*items = append(*items, item{line: "ds.key " + a.wire + " " + b.wire, goR: tf(same), kind: "key"})
-				if a.wf && b.wf && same != (a.wire == b.wire) {
-					g.rep.Add(vh.Case{Kind: "violation", Op: "ds.key " + a.wire + " " + b.wire, Detail: "two well-formed terms intern to the same node iff they are equal: violated"})
+				kline := "ds.key " + a.wire + " " + b.wire
+				*items = append(*items, item{line: kline, goR: tf(same), kind: "key"})
+				if a.eq && b.eq && same != (a.wire == b.wire) {
+					switch {
+					case !keyCollision(a, b):
+						addCase(g.rep, vh.Case{Kind: "violation", Op: kline, Go: tf(same), Detail: "two terms are interned as the same node iff they are equal: violated (their hashed byte strings differ)"})
+					case collisionKnown:
+						f := known[collisionPredicate]
+						addCase(g.rep, vh.Case{Kind: "known", Key: f.Key, Op: kline, Go: tf(same), Detail: f.What})
+					default:
+						g.rep.Count("oracle:key-pair-in-class-" + collisionPredicate + "(finding-not-listed)")
+					}
 				}
 			}
 		}
 	}
+	g.rep.Exhaustive = append(g.rep.Exhaustive, fmt.Sprintf("TermEquals on all %d ordered pairs of the %d universe terms (%d pairs involve an ill-formed literal): symmetry, agreement with structural equality, agreement of Equals/EqualsOneOf built from the first term, node identity in the store; compared with the model", pairs, len(all), illPairs))
 	n := 4000
 	if *tier == "thorough" {
 		n = 100000
 	}
 	for i := 0; i < n**scale; i++ {
-		mal := i%4 == 3
+		g.mode = []string{"wf", "illarg", "illstored", "malformed"}[i%4]
+		mal := g.mode == "malformed"
 		m := g.termMatcher(3, mal)
 		t := vh.Pick(g.r, all)
 		line := "ds.match " + strings.Join(m.rpn(), ";") + " " + t.wire
 		got := m.goM().MatchTerm(t.v)
 		g.rep.Count("op:match")
 		g.rep.Count("match:" + m.op)
+		if m.hasRef() && !m.wellFormed() {
+			g.rep.Count("match:with-ill-formed-literal-argument")
+		}
 		g.rep.Eval(line, m.op == "of" || len(m.kids) > 0)
 		*items = append(*items, item{line: line, goR: tf(got), kind: "match"})
-		if m.wellFormed() && (t.wf || t == nilTerm) && got != m.ref(t) {
-			g.rep.Add(vh.Case{Kind: "violation", Op: line, Go: tf(got), Detail: "term matcher disagrees with term equality (reference evaluation: " + tf(m.ref(t)) + ")"})
+		if m.hasRef() && (t.eq || t == nilTerm) && got != m.ref(t) {
+			addCase(g.rep, vh.Case{Kind: "violation", Op: line, Go: tf(got), Detail: "term matcher disagrees with term equality (reference evaluation: " + tf(m.ref(t)) + ")"})
 		}
 	}
+}
+
+// literalPairs: for every ordered pair (a, b) of universe literals — well-formed, ill-formed twins and
+// the colliding ones — the history "store a; iterate with object matchers built from b (Equals,
+// EqualsOneOf, through the dataset and through the view); HasQuad b; DeleteQuad b; iterate": exactly
+// the quad with a is selected iff a = b. Judged by the reference set and compared with the model.
+func (g *gen) literalPairs(eval func(string, []op)) {
+	u := g.u
+	lits := append(append([]*term{}, u.lits...), u.illPool...)
+	s, p := u.iris[0], u.iris[2]
+	count := 0
+	for _, a := range lits {
+		for _, b := range lits {
+			q := func(o *term) rquad { return rquad{s, p, o, nilTerm} }
+			ops := []op{
+				{kind: "A", q: q(a)},
+				{kind: "Q", sms: []sm{{pos: "qo", m: &tm{op: "eq", t: b}}}},
+				{kind: "Q", sms: []sm{{pos: "to", m: &tm{op: "of", ts: []*term{b, u.iris[3]}}}}},
+				{kind: "q", q: rquad{g: nilTerm}, sms: []sm{{pos: "ts", m: &tm{op: "eq", t: s}}, {pos: "to", m: &tm{op: "of", ts: []*term{b}}}}},
+				{kind: "Q", sms: []sm{{pos: "qo", m: &tm{op: "not", kids: []*tm{{op: "eq", t: b}}}}}},
+				{kind: "H", q: q(b)},
+				{kind: "D", q: q(b)},
+				{kind: "Q"},
+				{kind: "h", q: q(a)},
+			}
+			kind := "literal-pairs:wf-stored"
+			if !a.wf {
+				kind = "literal-pairs:ill-formed-stored"
+			}
+			eval(kind, ops)
+			count++
+		}
+	}
+	nwf := 0
+	for _, a := range lits {
+		if a.wf {
+			nwf++
+		}
+	}
+	g.rep.Exhaustive = append(g.rep.Exhaustive, fmt.Sprintf("all %d ordered pairs (a, b) of the %d universe literals (%d well-formed, %d ill-formed): store a, then Equals/EqualsOneOf/not object matchers built from b through NewQuadIterator and a view's NewTripleIterator (fast path), HasQuad b, DeleteQuad b, full iteration, HasTriple a; compared with the reference set (from a literal-key collision on only if that finding is listed) and with the model", count, len(lits), nwf, len(lits)-nwf))
 }
 
 // exhaustive: all histories of <= 4 Add/Delete operations over a 2x2x2x2 universe, each followed by
@@ -1595,6 +1974,8 @@ func (g *gen) exhaustive(eval func(string, []op), depth int, how string) {
 
 // corpus: hand-picked histories, always run first.
 var corpus = []string{
+	// "x"@en stored; the literal without its tag as Equals / EqualsOneOf object matcher, HasQuad, DeleteQuad: not a member (seeded C19r3-1)
+	"ds.run A,I687474703a2f2f652f61,I687474703a2f2f652f70,L687474703a2f2f7777772e77332e6f72672f313939392f30322f32322d7264662d73796e7461782d6e73236c616e67537472696e67.78.l656e,- Q,L687474703a2f2f7777772e77332e6f72672f313939392f30322f32322d7264662d73796e7461782d6e73236c616e67537472696e67.78.-;eq;qo Q,L687474703a2f2f7777772e77332e6f72672f313939392f30322f32322d7264662d73796e7461782d6e73236c616e67537472696e67.78.-;I687474703a2f2f652f71;of2;to;qt H,I687474703a2f2f652f61,I687474703a2f2f652f70,L687474703a2f2f7777772e77332e6f72672f313939392f30322f32322d7264662d73796e7461782d6e73236c616e67537472696e67.78.-,- D,I687474703a2f2f652f61,I687474703a2f2f652f70,L687474703a2f2f7777772e77332e6f72672f313939392f30322f32322d7264662d73796e7461782d6e73236c616e67537472696e67.78.-,- Q,",
 	// delete the last statement of a subject, then re-add and iterate (residue must stay invisible)
 	"ds.run A,I687474703a2f2f652f61,I687474703a2f2f652f70,I687474703a2f2f652f62,- D,I687474703a2f2f652f61,I687474703a2f2f652f70,I687474703a2f2f652f62,- Q, H,I687474703a2f2f652f61,I687474703a2f2f652f70,I687474703a2f2f652f62,- s,-, A,I687474703a2f2f652f61,I687474703a2f2f652f70,I687474703a2f2f652f62,- Q, s,-,",
 	// HasQuad on a graph that does not exist yet, with a nil subject: no panic
